@@ -547,3 +547,57 @@ def annotation_problems(s, leaf, times="int64"):
     if lg and lg["kind"] == "DECIMAL" and (lg.get("scale") != leaf.get("scale") or lg.get("precision") != leaf.get("precision")):
         bad("DecimalType scale/precision differ from SchemaElement.scale/precision")
     return probs
+
+
+# ---------------------------------------------------------------------------------------------
+# wave 6: footer statistics as the FORMAT prescribes (Statistics.min_value = 6 / max_value = 5 / null_count = 3), added to the
+# footer the specification encoder wrote: the footer is parsed and re-serialised by the specification's compact-protocol codec
+# (pqref thrift_dec / thrift_enc); only field 12 of the ColumnMetaData structs changes.  lf["spec_stats"] = per row group, per column:
+# None | {"min": hex | None, "max": hex | None, "null_count": int | None}
+
+def _tv_args(v):
+    """tv tree as returned by pqref (tags as bytes) -> the same tree as call arguments (tags as symbols)"""
+    t = v[0].decode() if isinstance(v[0], (bytes, bytearray)) else v[0]
+    if t == "r":
+        return ["r", [[i, _tv_args(x)] for i, x in v[1]]]
+    if t == "l":
+        return ["l", v[1], [_tv_args(x) for x in v[2]]]
+    if t == "s":
+        return ["s", bytes(v[1])]
+    return [t, v[1]]
+
+
+def _set_field(struct, fid, val):
+    fs = [[i, x] for i, x in struct[1] if i != fid]
+    if val is not None:
+        fs.append([fid, val])
+    fs.sort(key=lambda p: p[0])
+    return ["r", fs]
+
+
+def add_spec_stats(pq, data, stats):
+    n = int.from_bytes(data[-8:-4], "little")
+    r = pq.call("thrift_dec", 1, data[-8 - n:-8])
+    if r[0] != b"ok":
+        raise RuntimeError("thrift_dec of the footer: %r" % (r[:1],))
+    fmd = _tv_args(r[1])
+    rgs = next(x for i, x in fmd[1] if i == 4)
+    for rg, rstats in zip(rgs[2], stats):
+        cols = next(x for i, x in rg[1] if i == 1)
+        for ci, (cc, st) in enumerate(zip(cols[2], rstats)):
+            if st is None:
+                continue
+            md = next(x for i, x in cc[1] if i == 3)
+            old = next((x for i, x in md[1] if i == 12), ["r", []])
+            new = old
+            new = _set_field(new, 3, None if st.get("null_count") is None else ["i64", st["null_count"]])
+            new = _set_field(new, 5, None if st.get("max") is None else ["s", bytes.fromhex(st["max"])])
+            new = _set_field(new, 6, None if st.get("min") is None else ["s", bytes.fromhex(st["min"])])
+            md2 = _set_field(md, 12, new if new[1] else None)
+            cc2 = _set_field(cc, 3, md2)
+            cols[2][ci] = cc2
+    e = pq.call("thrift_enc", fmd)
+    if e[0] != b"ok":
+        raise RuntimeError("thrift_enc of the footer: %r" % (e,))
+    foot = bytes(e[1])
+    return data[:-8 - n] + foot + len(foot).to_bytes(4, "little") + b"PAR1"
